@@ -73,6 +73,24 @@ def tolist(t):
     return json.loads(json.dumps(t))
 
 
+def lin_arith(ift, inner, t):
+    """An EnergyOperator whose apply is written with Field/Linearization arithmetic on the result of `inner`
+    (as user code does):  ("eshift", neg, c, "scalar"|"field", h): inner(x) -/+ c;  ("elscale", c, h): inner(x) * c.
+    On a Linearization this is Linearization._myadd (scalar / Field branch) resp. Linearization.__mul__ (scalar)."""
+    class LinArith(ift.EnergyOperator):
+        def __init__(self):
+            self._domain = inner.domain
+
+        def apply(self, x):
+            self._check_input(x)
+            l = inner(x)
+            if t[0] == "elscale":
+                return l * t[1]
+            c = t[2] if t[3] == "scalar" else ift.Field.scalar(t[2])
+            return l - c if t[1] else l + c
+    return LinArith()
+
+
 class Impl:
     """Builds NIFTy objects from trees (operator route and Linearization route)."""
 
@@ -154,6 +172,8 @@ class Impl:
             return t[1] * self.op(t[2])
         if k == "eadd":
             return self.op(t[1]) + self.op(t[2])
+        if k in ("eshift", "elscale"):
+            return lin_arith(ift, self.op(t[-1]), t)
         raise ValueError(k)
 
     # ---- Linearization methods ----------------------------------------------------------------------
@@ -355,6 +375,11 @@ def ref(t, x, n):
         r = [Fraction(t[1]) * ref(t[2], x, n)[0]]
     elif k == "eadd":
         r = [ref(t[1], x, n)[0] + ref(t[2], x, n)[0]]
+    elif k == "eshift":
+        v = ref(t[4], x, n)[0]
+        r = [v - Fraction(t[2]) if t[1] else v + Fraction(t[2])]
+    elif k == "elscale":
+        r = [ref(t[2], x, n)[0] * Fraction(t[1])]
     else:
         raise ValueError(k)
     for v in r:
@@ -403,9 +428,11 @@ def pathmag(t, x, n):
             r = [u - Fraction(c) for u, c in zip(r, t[1])]
         N = mx(t[2]) if t[2] is not None else 1
         return a * 2 * mx(r) * N, l
-    if k == "escale":
+    if k in ("escale", "elscale"):
         a, l = pathmag(t[2], x, n)
         return a * mx([t[1]]), l
+    if k == "eshift":
+        return pathmag(t[4], x, n)
     raise ValueError(k)
 
 
@@ -488,6 +515,17 @@ def gen_energy(rng, depth, n, K):
         # perfect squares only: ScalingOperator.__call__ takes sqrt(factor) for the metric
         return ("escale", float(rng.choice([4., 0.25, 1., -1., 9.])), gen_energy(rng, depth - 1, n, K))
     return ("eadd", gen_energy(rng, depth - 1, n, K), gen_energy(rng, depth - 1, n, K))
+
+
+def wrap_lin_arith(rng, h):
+    """Linearization-level +, -, * with scalars / scalar Fields on top of an energy (whose Linearization may carry a
+    metric): 1-2 layers."""
+    for _ in range(int(rng.integers(1, 3))):
+        if rng.random() < 0.7:
+            h = ("eshift", int(rng.integers(0, 2)), dy(rng, -3, 3), "scalar" if rng.random() < 0.5 else "field", h)
+        else:
+            h = ("elscale", float(rng.choice([2.0, 0.5, -1.0, 3.0, -2.0])), h)
+    return h
 
 
 def gen_point(rng, n, K):
@@ -584,6 +622,10 @@ def cexpr(t, n):
         return "(EScale %s %s)" % (cqc(t[1]), cexpr(t[2], n))
     if k == "eadd":
         return "(EAdd %s %s)" % (cexpr(t[1], n), cexpr(t[2], n))
+    if k == "eshift":
+        return "(EShift %s %s %s)" % (C.cbool(t[1]), cqc(t[2]), cexpr(t[4], n))
+    if k == "elscale":
+        return "(ELScale %s %s)" % (cqc(t[1]), cexpr(t[2], n))
     raise ValueError(k)
 
 
@@ -602,6 +644,113 @@ def coq_check_energy(t, x, n, K, wm, o):
     return "check_energy %s %s (%s : qenergy) %s %s %s %s %s %s" % (
         C.cbool(wm), C.clist(["%d" % n] * K), cexpr(t, n), cl2(x), cqc(o["plain"][0]), cqc(o["linval"][0]),
         cl3(o["jt"]), cl3(o["ja"]), "None" if o["met"] is None else "(Some %s)" % cl4(o["met"]))
+
+
+# ======================================================================================================
+# MultiLinearEinsum
+# ======================================================================================================
+
+EIN_TEMPLATES = ["ij,jk,kl->il", "ij,jk->ik", "ij,j->i", "ij,kj->ik", "i,j->ij", "ij,ij->ij", "ijk,k->ij", "ij,jk,ki->i",
+                 "i,ij,j->ij", "ij,jk->ki"]
+
+
+def ein_cases(rng, ntemplates):
+    """(subscripts, dims of the letters, key_order) for EVERY permutation of the key names over the operand
+    positions; operand shapes are unequal whenever the letters have different sizes."""
+    import itertools
+    out = []
+    for ti in range(ntemplates):
+        sub = EIN_TEMPLATES[ti % len(EIN_TEMPLATES)]
+        letters = sorted(set(sub) - set(",->"))
+        while True:
+            dims = {l: int(rng.integers(1, 4)) for l in letters}
+            if len(set(dims.values())) > 1 or len(letters) == 1:
+                break
+        nops = sub.count(",") + 1
+        for perm in itertools.permutations(["a", "b", "c"][:nops]):
+            out.append({"kind": "einsum", "sub": sub, "dims": dims, "key_order": list(perm)})
+    return out
+
+
+def ein_build(ift, c):
+    iss, oss = c["sub"].split("->")
+    iss = iss.split(",")
+    sp = {l: ift.UnstructuredDomain(d) for l, d in c["dims"].items()}
+    opdom = [ift.DomainTuple.make([sp[l] for l in ss]) for ss in iss]
+    dom = ift.MultiDomain.make({k: opdom[p] for p, k in enumerate(c["key_order"])})
+    op = ift.MultiLinearEinsum(dom, c["sub"], key_order=tuple(c["key_order"]))
+    return op, dom, opdom, iss, oss
+
+
+def ein_observe(c, vals):
+    """vals[p]: flat values of the operand at POSITION p (key c['key_order'][p])."""
+    import nifty.cl as ift
+    op, dom, opdom, iss, oss = ein_build(ift, c)
+    ko = c["key_order"]
+    X = ift.MultiField.from_dict({ko[p]: ift.Field.from_raw(opdom[p], np.array(vals[p], dtype=float).reshape(opdom[p].shape))
+                                  for p in range(len(ko))}, domain=dom)
+    plain = op(X)
+    lin = op(ift.Linearization.make_var(X))
+    osh = list(op.target.shape)
+    o = {"plain": plain.asnumpy().reshape(-1).tolist(), "linval": lin.val.asnumpy().reshape(-1).tolist(), "oshape": osh,
+         "shapes": [list(d.shape) for d in opdom]}
+    jt = []
+    for p in range(len(ko)):
+        rows = []
+        for e in range(int(np.prod(opdom[p].shape))):
+            d = {ko[q]: np.zeros(opdom[q].shape) for q in range(len(ko))}
+            d[ko[p]].reshape(-1)[e] = 1.0
+            D = ift.MultiField.from_dict({k: ift.Field.from_raw(dom[k], v) for k, v in d.items()}, domain=dom)
+            rows.append(lin.jac(D).asnumpy().reshape(-1).tolist())
+        jt.append(rows)
+    ja = []
+    for f in range(int(np.prod(osh)) if osh else 1):
+        y = np.zeros(op.target.shape)
+        y.reshape(-1)[f] = 1.0
+        r = lin.jac.adjoint_times(ift.Field.from_raw(op.target, y)).asnumpy()
+        ja.append([np.asarray(r[ko[p]]).reshape(-1).tolist() for p in range(len(ko))])
+    o["jt"], o["ja"] = jt, ja
+    return o
+
+
+def ein_coq(c, vals, o):
+    iss, oss = c["sub"].split("->")
+    iss = iss.split(",")
+    letters = sorted(c["dims"])
+    num = {l: i for i, l in enumerate(letters)}
+    summed = [l for l in letters if l not in oss]
+    nl = lambda ls: C.clist(["%d" % num[l] for l in ls])
+    sh = lambda xs: C.clist(["%d" % v for v in xs])
+    return "check_einsum %s %s %s %s %s %s %s %s %s %s %s" % (
+        C.clist([nl(ss) for ss in iss]), nl(oss), nl(summed), C.clist(["%d" % c["dims"][l] for l in letters]),
+        C.clist([sh(x) for x in o["shapes"]]), sh(o["oshape"]), cl2(vals), cl1(o["plain"]), cl1(o["linval"]), cl3(o["jt"]), cl3(o["ja"]))
+
+
+def ein_direct(c, seed):
+    """MultiLinearEinsum on the implementation at a random float point: value = numpy einsum of the operands in
+    key_order, J.d = sum over the operands of the contraction with that operand replaced by its tangent, adjointness."""
+    import nifty.cl as ift
+    rng = np.random.default_rng([seed, 77])
+    op, dom, opdom, iss, oss = ein_build(ift, c)
+    ko = c["key_order"]
+    a = [rng.normal(size=d.shape) for d in opdom]
+    d = [rng.normal(size=dd.shape) for dd in opdom]
+    mf = lambda arrs: ift.MultiField.from_dict({ko[p]: ift.Field.from_raw(opdom[p], arrs[p]) for p in range(len(ko))}, domain=dom)
+    X, D = mf(a), mf(d)
+    ref = np.einsum(c["sub"], *a)
+    lin = op(ift.Linearization.make_var(X))
+    if not np.allclose(op(X).asnumpy(), ref, rtol=1e-12, atol=1e-12) or not np.allclose(lin.val.asnumpy(), ref, rtol=1e-12, atol=1e-12):
+        return ("value", "MultiLinearEinsum value differs from numpy.einsum of the operands in key_order")
+    jref = sum(np.einsum(c["sub"], *[d[q] if q == p else a[q] for q in range(len(ko))]) for p in range(len(ko)))
+    jv = lin.jac(D).asnumpy()
+    if not np.allclose(jv, jref, rtol=1e-10, atol=1e-12):
+        return ("jacobian", "J.d = %r but the multilinear derivative is %r" % (jv.reshape(-1).tolist(), jref.reshape(-1).tolist()))
+    y = rng.normal(size=op.target.shape)
+    lhs = float(np.vdot(y, jv))
+    rhs = float(lin.jac.adjoint_times(ift.Field.from_raw(op.target, y)).s_vdot(D))
+    if abs(lhs - rhs) > 1e-9 * (1 + abs(lhs)):
+        return ("adjoint", "<y, J d> = %r but <J^T y, d> = %r" % (lhs, rhs))
+    return None
 
 
 # ======================================================================================================
@@ -781,7 +930,7 @@ def fd_check(impl, t, x, dirs, wm=False, om=True, h=2e-3, tol=2e-5):
         return ("value", "Linearization value differs from plain evaluation: %r vs %r" % (lv.tolist(), plain.tolist()))
     if bool(lin.want_metric) != bool(wm):
         return ("want_metric", "want_metric flag not carried: %r" % lin.want_metric)
-    is_energy = t[0] in ("gauss", "escale", "eadd")
+    is_energy = t[0] in ("gauss", "escale", "eadd", "eshift", "elscale")
     if not is_energy and lin.metric is not None:
         return ("metric", "a non-energy expression carries a metric")
     op = impl.op(t)
@@ -848,6 +997,8 @@ def fd_check(impl, t, x, dirs, wm=False, om=True, h=2e-3, tol=2e-5):
 def _scales_nonneg(t):
     if t[0] == "gauss":
         return True
+    if t[0] in ("eshift", "elscale"):
+        return _scales_nonneg(t[-1])     # Linearization.__mul__ scales the metric for any sign
     if t[0] == "escale":
         return t[1] >= 0 and _scales_nonneg(t[2])
     return _scales_nonneg(t[1]) and _scales_nonneg(t[2])
@@ -864,9 +1015,11 @@ def _fisher(impl, t, X, dm, dkeys):
             jd = impl.fld(t[2], shape(t[3])) * jd
         r = l.jac.adjoint_times(jd)
         return {kk: (r[kk].asnumpy() if kk in r.keys() else np.zeros(impl.n)) for kk in dkeys}
-    if t[0] == "escale":
+    if t[0] in ("escale", "elscale"):
         r = _fisher(impl, t[2], X, dm, dkeys)
         return {kk: t[1] * v for kk, v in r.items()}
+    if t[0] == "eshift":
+        return _fisher(impl, t[4], X, dm, dkeys)
     a, b = _fisher(impl, t[1], X, dm, dkeys), _fisher(impl, t[2], X, dm, dkeys)
     return {kk: a[kk] + b[kk] for kk in dkeys}
 
@@ -962,6 +1115,8 @@ class C03(C.Check):
             tries += 1
             n, K = int(rng.integers(1, 4)), int(rng.integers(1, 4))
             t = gen_energy(rng, int(rng.integers(0, 3)), n, K)
+            if tries % 2 == 0:
+                t = wrap_lin_arith(rng, t)
             x = gen_point(rng, n, K)
             if "var" not in kinds(t):
                 continue
@@ -1002,15 +1157,36 @@ class C03(C.Check):
             except Exception as e:      # the implementation raised on a well-formed tree
                 checks.append("false")
                 meta.append((ci, "raised %s: %s" % (type(e).__name__, str(e)[:200])))
+        # MultiLinearEinsum: every permutation of key_order, unequal operand shapes, small integer operands
+        rng_e = ctx.rng(303)
+        ecases = [c for c in ctx.corpus() if c.get("kind") == "einsum"] + ein_cases(rng_e, 6 if ctx.quick else 30)
+        self.ecases = ecases
+        for c in ecases:
+            cases.append({"kind": "einsum", "tree": ("einsum", c["sub"], "".join(c["key_order"])), "x": [], "n": 0, "K": 0, "ein": c})
+            ci = len(cases) - 1
+            iss = c["sub"].split("->")[0].split(",")
+            vals = [[float(rng_e.integers(-3, 4)) for _ in range(int(np.prod([c["dims"][l] for l in ss])))] for ss in iss]
+            try:
+                o = ein_observe(c, vals)
+                checks.append(ein_coq(c, vals, o))
+                meta.append((ci, "einsum key_order=%s" % (c["key_order"],)))
+            except Exception as e:
+                checks.append("false")
+                meta.append((ci, "einsum raised %s: %s" % (type(e).__name__, str(e)[:200])))
         bad = eval_cases_private(self.prop, HEADER, checks)
         for i in bad[:4]:
             ci, how = meta[i]
             c = cases[ci]
+            if c["kind"] == "einsum":
+                res.add_broken("correspondence", "MultiLinearEinsum vs coq/C03/Einsum.v", dict(c["ein"], mode=how))
+                continue
             res.add_broken("correspondence", "Linearization algebra vs coq/C03/Model.v",
                            {"kind": c["kind"], "tree": tolist(c["tree"]), "x": c["x"], "n": c["n"], "K": c["K"], "mode": how})
-        hints += [("case", meta[i][0]) for i in bad]
+        hints += [("case", meta[i][0]) for i in bad if cases[meta[i][0]]["kind"] != "einsum"]
+        hints += [("einsum", cases[meta[i][0]]["ein"]) for i in bad if cases[meta[i][0]]["kind"] == "einsum"]
         nontriv = {json.dumps(tolist(c["tree"])) for c in cases if depth_of(c["tree"]) >= 3 and
                    (kinds(c["tree"]) & {"mul", "vdot", "sq2", "gauss"} or any(k.startswith("ptw:") for k in kinds(c["tree"])))}
+        nontriv |= {json.dumps(c["ein"], sort_keys=True) for c in cases if c["kind"] == "einsum" and c["ein"]["key_order"] != sorted(c["ein"]["key_order"])}
         dist = {}
         for c in cases:
             for k in kinds(c["tree"]):
@@ -1019,7 +1195,9 @@ class C03(C.Check):
             "evaluations": len(checks) + n_tie, "distinct_nontrivial": len(nontriv),
             "rule": "random expression/energy trees (depth<=5, 1-3 keys, 1-3 pixels) over the exact pointwise functions, dyadic inputs; "
                     "each tree through both construction routes (expr) or with/without want_metric (energy); plus %d sample evaluations of the "
-                    "translated table against NumPy; non-trivial = depth>=3 containing a product/contraction/pointwise node; distinct by tree" % n_tie,
+                    "translated table against NumPy; MultiLinearEinsum with every permutation of key_order over subscripts templates with unequal letter sizes "
+                    "(value, Jacobian per operand on every basis tensor, adjoint); non-trivial = depth>=3 containing a product/contraction/pointwise node, "
+                    "or an einsum with a non-alphabetical key_order; distinct by tree / einsum case" % n_tie,
             "samples": [{"tree": tolist(c["tree"]), "x": c["x"]} for c in cases[3:6]],
             "input_distribution": dist, "disagreements": len(bad) + len(bad_tie), "table_entries_translated": len(self.entries or []),
             "exhaustive": False,
@@ -1066,6 +1244,8 @@ class C03(C.Check):
         lim = (40 if ctx.quick else 300) * budget
         for ci in order[:lim]:
             c = self.cases[ci]
+            if c["kind"] == "einsum":
+                continue
             if "ptw:power" in kinds(c["tree"]) and any(abs(v) < 1e-9 for row in c["x"] for v in row):
                 continue
             inp = {"kind": "direct", "what": "tree", "tree": tolist(c["tree"]), "x": c["x"], "n": c["n"], "K": c["K"], "cplx": False,
@@ -1081,6 +1261,16 @@ class C03(C.Check):
                                         f[1], dict(inp, om=om, wm=wm))
             if len(res.failing) >= 3:
                 break
+        # 2a. MultiLinearEinsum, every key_order, random float operands
+        for ei, c in enumerate([h[1] for h in hints if h[0] == "einsum"] + list(getattr(self, "ecases", []))):
+            nev += 1
+            inp = {"kind": "direct", "what": "einsum", "ein": c, "seed": ctx.seed * 100 + ei}
+            try:
+                f = run_direct(inp)
+            except Exception as e:
+                f = ("raised", "%s: %s" % (type(e).__name__, str(e)[:300]))
+            if f:
+                res.add_failing({"fn": "MultiLinearEinsum", "check": f[0], "key_order_sorted": c["key_order"] == sorted(c["key_order"])}, f[1], inp)
         # 2b. fixed probes: real / imaginary part / conjugate taken on complex Linearizations (both routes)
         for pi, t in enumerate(COMPLEX_PROBES):
             n, K = 2, 2
@@ -1119,6 +1309,8 @@ class C03(C.Check):
                 t = ("gauss", [float(rng.normal()) for _ in range(m)], [float(rng.uniform(0.5, 2)) for _ in range(m)], t)
                 if it % 2 == 0:
                     t = ("eadd", ("escale", float(rng.choice([0.5, 2.0, 3.0])), t), ("gauss", None, None, ("var", int(rng.integers(0, K)))))
+                if it % 4 < 2:
+                    t = wrap_lin_arith(rng, t)
             pts = [x]
             for _ in range(2):
                 x2 = [[v + (complex(rng.normal(), rng.normal()) if cplx else float(rng.normal())) * 0.02 for v in row] for row in x]
@@ -1204,6 +1396,8 @@ def _kink_ok(t, x, n):
 def run_direct(inp):
     """Re-evaluates one direct check from its JSON description.  Returns None or (check, detail)."""
     from nifty.cl import pointwise
+    if inp["what"] == "einsum":
+        return ein_direct(inp["ein"], inp.get("seed", 0))
     if inp["what"] == "entry":
         x = complex(*inp["x"]) if inp.get("cplx") else inp["x"]
         return entry_fd(pointwise, inp["name"], inp["args"], x, cplx=bool(inp.get("cplx")))
